@@ -21,7 +21,7 @@ func TestCheck(t *testing.T) {
 	ev = drv.NewEvidence("C08", "exploration", rule)
 	nOpsProg, nOps, nTreeProg, nTrees := 4, 400, 3, 60
 	if drv.Thorough() {
-		nOpsProg, nOps, nTreeProg, nTrees = 40, 800, 40, 120
+		nOpsProg, nOps, nTreeProg, nTrees = 20, 800, 20, 120
 	}
 	type job func()
 	var jobs []job
